@@ -18,6 +18,10 @@ func main() {
 		os.Exit(1)
 	}
 	what := os.Args[1]
+	if what == "dbg" {
+		dbg(p)
+		return
+	}
 	for _, f := range p.ModuleFuncs() {
 		for _, b := range f.Blocks {
 			for _, in := range b.Instrs {
